@@ -101,6 +101,8 @@ class CallMixin:
         fields = self.heap[o.oid]
         if name in fields:
             return fields[name]
+        if name == '__class__' and isinstance(o.cls, type):
+            return o.cls
         sch = self.env.classes.get(o.schema) if o.schema else None
         if sch is not None:
             ftypes = sch.get('fields', {})
